@@ -153,6 +153,14 @@ qb_loop_run(struct qb_loop *lp)
 	}
 	l->stop_requested = QB_FALSE;
 
+	/*
+	 * A loop that was stopped from a callback may still have items
+	 * queued: they are due now, the first poll must not block for them.
+	 */
+	for (p = QB_LOOP_HIGH; p >= QB_LOOP_LOW; p--) {
+		remaining_todo += l->level[p].todo;
+	}
+
 	do {
 		if (p_stop == QB_LOOP_LOW) {
 			p_stop = QB_LOOP_HIGH;
